@@ -88,6 +88,23 @@ int main(int argc, char **argv) {
     hexto(torsion_hex[1], T); if (crypto_core_ed25519_add(q, p, T) == 0) { vrng_bytes(&R, s, 32); ed_mul(1, s, q); ed_mul(0, s, q); }     /* mixed-order input */
     { unsigned char rp[32]; vrng_bytes(&R, w, 64); crypto_core_ristretto255_from_hash(rp, w); r_mul(0, Lb, rp); memset(s, 0, 32); r_mul(0, s, rp); r_mul(1, s, rp); r_mul(1, Lb, rp);
       vrng_bytes(&R, t, 32); vrng_bytes(&R, s, 32); r_mul(0, s, t); r_addsub(t, rp); r_addsub(rp, rp); }
+    /* every special Edwards encoding (torsion points and their non-canonical aliases) and structured invalid Ristretto
+     * encodings presented to EVERY consumer, in either operand position */
+    { unsigned char g[32], rp[32], bad[32]; vrng_bytes(&R, w, 64); crypto_core_ed25519_from_uniform(g, w); crypto_core_ristretto255_from_hash(rp, w);
+      for (int j = 0; j < NTOR; j++) { hexto(torsion_hex[j], T); ed_addsub(T, g); ed_addsub(g, T); ed_addsub(T, T); vrng_bytes(&R, s, 32); ed_mul(1, s, T); ed_mul(0, s, T);
+          r_valid(T); r_addsub(T, rp); r_addsub(rp, T); r_mul(0, s, T); }
+      for (int j = 0; j < 10; j++) { memcpy(bad, rp, 32);
+          switch (j) { case 0: bad[0] |= 1; break;                                  /* negative s */
+                       case 1: bad[31] |= 0x80; break;                              /* bit 255 */
+                       case 2: memset(bad, 0xff, 32); bad[31] = 0x7f; bad[0] = 0xec; break;     /* s = p - 1 */
+                       case 3: memset(bad, 0xff, 32); bad[31] = 0x7f; bad[0] = 0xed; break;     /* s = p     */
+                       case 4: memset(bad, 0xff, 32); bad[31] = 0x7f; bad[0] = 0xee; break;     /* s = p + 1 */
+                       case 5: memset(bad, 0, 32); bad[0] = 2; break;                           /* small values */
+                       case 6: memset(bad, 0, 32); bad[0] = 4; break;
+                       case 7: memset(bad, 0, 32); break;                                       /* identity (valid) */
+                       case 8: bad[7] ^= 0x20; break;                                           /* random neighbour: mostly non-square */
+                       default: bad[20] ^= 0x02; break; }
+          r_valid(bad); r_addsub(bad, rp); r_addsub(rp, bad); vrng_bytes(&R, s, 32); s[31] &= 0x0f; r_mul(0, s, bad); } }
     /* ---- scalar arithmetic: structured + random, reduced and arbitrary byte strings */
     { static const char *sc_hex[] = { "0000000000000000000000000000000000000000000000000000000000000000", "0100000000000000000000000000000000000000000000000000000000000000",
         "ecd3f55c1a631258d69cf7a2def9de1400000000000000000000000000000010", "edd3f55c1a631258d69cf7a2def9de1400000000000000000000000000000010",
